@@ -201,7 +201,7 @@ def _obj(i):
     if form == 'int':
         return v
     if form == 'rng':
-        return netaddr.IPRange(IPAddress(v, ver), IPAddress(v, ver))
+        return common.make_range(ver, v, v)
     if form == 'bad':
         return _BAD_TEXTS[(v + p) % len(_BAD_TEXTS)]
     host = (1 << (W[ver] - p)) - 1
